@@ -285,15 +285,11 @@ type HugeCase struct {
 var hugeBuf []byte
 
 func checkHuge(c HugeCase, o *stats.Obs) error {
-	if strconv.IntSize < 64 {
-		o.Skip = true
-		return nil
-	}
-	const size = 1<<29 + 64
+	size := hugeSize()
 	if hugeBuf == nil {
 		hugeBuf = make([]byte, size) // fresh pages from the OS: only the few that are touched become resident
 	}
-	if c.Width < 1 || c.Width > 64 || c.Pos+uint64(c.Width) > size*8 {
+	if c.Width < 1 || c.Width > 64 || c.Pos+uint64(c.Width) > uint64(size)*8 {
 		o.Skip = true
 		return nil
 	}
@@ -331,13 +327,35 @@ func checkHuge(c HugeCase, o *stats.Obs) error {
 	}
 	o.NonTrivial = true
 	o.Hash = stats.HashInts(int64(c.Pos), int64(c.Width), int64(c.Value))
-	o.Class("buffer>512MiB")
+	switch {
+	case c.Pos >= 1<<34:
+		o.Class("buffer>4GiB/position>=2^34")
+	case c.Pos >= 1<<31:
+		o.Class("position>=2^31")
+	default:
+		o.Class("position<2^31")
+	}
 	return nil
+}
+
+// hugeSize: 4 GiB + 64 bytes where int has 64 bits (bit positions up to 2^35: byte indices around 2^32), and
+// 256 MiB + 64 bytes where it has 32 (bit positions around 2^31).  The pages come fresh from the operating
+// system; only the few that are touched become resident.
+func hugeSize() int {
+	if strconv.IntSize < 64 {
+		return 1<<28 + 64
+	}
+	var four uint64 = 1 << 32
+	return int(four + 64)
 }
 
 func genHuge(t *rapid.T) HugeCase {
 	w := rapid.IntRange(1, 64).Draw(t, "width")
-	base := rapid.SampledFrom([]uint64{1 << 32, 1 << 31, 1<<32 + 1<<20}).Draw(t, "base")
+	bases := []uint64{1 << 32, 1 << 31, 1<<32 + 1<<20, 1 << 35, 1<<35 - 8, 1 << 34, 1 << 33}
+	if strconv.IntSize < 64 {
+		bases = []uint64{1 << 31, 1 << 30, 1<<31 + 1<<10, 1<<31 - 64}
+	}
+	base := rapid.SampledFrom(bases).Draw(t, "base")
 	pos := base - 70 + uint64(rapid.IntRange(0, 140).Draw(t, "delta"))
 	return HugeCase{Pos: pos, Width: w, Value: rapid.Uint64().Draw(t, "value")}
 }
